@@ -2419,8 +2419,8 @@ def write_cache(
     return interface_hash, (meta, meta_file)
 
 
-def write_cache_meta(meta: CacheMeta, manager: BuildManager, meta_file: str) -> None:
-    # Write meta cache file
+def write_cache_meta(meta: CacheMeta, manager: BuildManager, meta_file: str) -> bool:
+    """Write meta cache file, return False if this failed."""
     metastore = manager.metastore
     if manager.options.fixed_format_cache:
         data_io = WriteBuffer()
@@ -2436,6 +2436,8 @@ def write_cache_meta(meta: CacheMeta, manager: BuildManager, meta_file: str) -> 
         # (see https://github.com/python/mypy/issues/3215).
         # The next run will simply find the cache entry out of date.
         manager.log(f"Error writing cache meta file {meta_file}")
+        return False
+    return True
 
 
 def invalidate_cache_meta_ex(meta_file: str, manager: BuildManager) -> bool:
@@ -4876,7 +4878,9 @@ def process_stale_scc(graph: Graph, ascc: SCC, manager: BuildManager) -> None:
         ]
         if not invalidate_cache_meta_ex(meta_file, manager):
             continue
-        write_cache_meta(meta, manager, meta_file)
+        if not write_cache_meta(meta, manager, meta_file):
+            # The old meta file is still there, it must not get the new meta_ex.
+            continue
         indirect = [dep for dep in state.dependencies if state.priorities.get(dep) == PRI_INDIRECT]
         meta_ex = CacheMetaEx(
             dependencies=indirect,
@@ -4958,10 +4962,19 @@ def process_stale_scc_interface(
             for dep in state.dependencies
             if state.priorities.get(dep) != PRI_INDIRECT
         ]
-        if invalidate_cache_meta_ex(meta_file, manager):
-            write_cache_meta(meta, manager, meta_file)
+        written = invalidate_cache_meta_ex(meta_file, manager) and write_cache_meta(
+            meta, manager, meta_file
+        )
         manager.commit_module(meta_file)
-        scc_result.append((id, ModuleResult(graph[id].interface_hash.hex(), []), meta_file))
+        # If the new meta file was not written, the old one (if any) is still there,
+        # and it must not get the new meta_ex written by the implementation phase.
+        scc_result.append(
+            (
+                id,
+                ModuleResult(graph[id].interface_hash.hex(), []),
+                meta_file if written else None,
+            )
+        )
     manager.done_sccs.add(ascc.id)
     manager.add_stats(
         load_missing_time=t1 - t0,
